@@ -99,6 +99,16 @@ pub fn path_sep(c: Cursor<'_>) -> ParsingResult<'_> {
     ])(c)
 }
 
+/// Tries to parse a [`token::RArrow`].
+///
+/// [`token::RArrow`]: struct@syn::token::RArrow
+pub fn r_arrow(c: Cursor<'_>) -> ParsingResult<'_> {
+    seq([
+        &mut punct_with_spacing('-', Spacing::Joint),
+        &mut punct('>'),
+    ])(c)
+}
+
 /// Tries to parse a [`punct`] with [`Spacing`].
 pub fn punct_with_spacing(
     p: char,
@@ -142,7 +152,11 @@ pub fn balanced_pair(
         let mut count = 1;
 
         while count != 0 {
-            let (stream, cursor) = if let Some(closing) = close(c) {
+            let (stream, cursor) = if let Some(arrow) = r_arrow(c) {
+                // `->` (in `fn(A) -> B` or a closure return type) contains a `>`, which is neither
+                // an opening nor a closing one.
+                arrow
+            } else if let Some(closing) = close(c) {
                 count -= 1;
                 closing
             } else if let Some(opening) = open(c) {
